@@ -204,7 +204,7 @@ func init() {
 		Sel: []Sel{{Pattern: "buffer.StreamLexer.*", Levels: "SF"}, {Pattern: "buffer.bufferPool.*", Levels: "SF"}, {Pattern: "buffer.NewStreamLexer*", Levels: "S"}},
 		NotDecided: []string{
 			"unfreed tokens stay intact: proved is that bufferPool.swap hands out only new memory, the buffer of an inactive block, or the current buffer when tail == 0 and the free credit covers it, and that swap/free write no byte memory; the pool invariant linking 'inactive' to 'every byte shifted from that block has been freed' (a linked-list accounting invariant over the whole call history) is not stated, so the end-to-end clause is not decided",
-			"bounded memory when every token is freed (a resource bound over the whole stream)",
+			"bounded memory when every token is freed (a resource bound over the whole stream); proved is the local accounting fact it rests on: a refill that changes buffers retires exactly the shifted bytes buf[:start] as the new head block and carries the unfinished token over",
 			"termination of the refill loop (a reader may return (0, nil) forever) and of bufferPool.free (acyclicity of the block list)",
 			"PeekRune's decoded value on valid UTF-8 (only that it peeks through the same cursor and returns a length in 1..4)",
 			"the lexer built from a reader with a Bytes() method (z.r == nil): only memory safety",
